@@ -22,7 +22,8 @@ pub struct SetSpec {
     /// None = complete_one
     pub cols: Option<usize>,
     pub rows: usize,
-    /// 0 = write_row, 1 = write_col.. end_row, 2 = like 1 but the last row is not ended explicitly
+    /// 0 = write_row, 1 = write_col.. end_row, 2 = like 1 but the last row is not ended explicitly,
+    /// 3 = the first cells by write_col, the rest of the row by write_row (random programs only)
     pub style: u8,
 }
 
@@ -52,6 +53,16 @@ fn emit_rows(ops: &mut Vec<QOp>, s: &SetSpec, salt: i32) {
         let last = r + 1 == s.rows;
         match s.style {
             0 => ops.push(QOp::Row(cells, if r % 2 == 0 { RowForm::Owned } else { RowForm::Borrowed })),
+            3 if nc >= 2 => {
+                // begun with write_col, completed by write_row with the remaining cells
+                let mut cells = cells;
+                let rest = cells.split_off(1 + r % (nc - 1));
+                for c in cells {
+                    ops.push(QOp::Col(c));
+                }
+                ops.push(QOp::Row(rest, RowForm::Owned));
+            }
+            3 => ops.push(QOp::Row(cells, RowForm::Borrowed)),
             _ => {
                 for c in cells {
                     ops.push(QOp::Col(c));
@@ -397,7 +408,7 @@ pub fn run(ctx: &Ctx) -> Report {
                 SetSpec { cols: None, rows: 0, style: 0 }
             } else {
                 let nc = *rng.pick(&[0usize, 1, 2, 3, 8]);
-                SetSpec { cols: Some(nc), rows: rng.below(7) as usize, style: if nc == 0 { rng.below(2) as u8 } else { rng.below(3) as u8 } }
+                SetSpec { cols: Some(nc), rows: rng.below(7) as usize, style: if nc == 0 { rng.below(2) as u8 } else { rng.below(4) as u8 } }
             }
         };
         let mut ss: Vec<SetSpec> = (0..nsets).map(|_| mk(rng)).collect();
